@@ -16,11 +16,11 @@ chk("C16","model_checking",
     "exhaustive enumeration of complete finite domains on the real code (explicit-state, no abstraction)","§3 C16")
 
 chk("C01","model_checking",
-    "Every history of write_sample calls up to the stated depth over alphabets that hold one value per shortcut of the muxer's table builders (sizes 0/1/2, durations 0/half/T/T+1, offsets 0/+/-, sync on/off, rejected track ids, every media kind alone and in ordered pairs, a timescale grid, one-hot extremes) is muxed by the real writer, read back by the real reader and compared with a list-of-samples reference model; within the bound the enumeration is complete.",
+    "Every history of write_sample calls up to the stated depth over alphabets that hold one value per shortcut of the muxer's table builders (sizes 0/1/2, durations 0/half/T/T+1, offsets 0/+/-, sync on/off, rejected track ids, writes refused on a known track because the track duration leaves 64 bits, every media kind alone and in ordered pairs, a timescale grid, one-hot extremes) is muxed by the real writer, read back by the real reader and compared with a list-of-samples reference model built from the calls the muxer accepted; whenever a call was refused the output must equal byte for byte the output of muxing the accepted calls alone; within the bound the enumeration is complete.",
     "Bounded: histories longer than the depth, or values outside the alphabets, are not covered. Decoder = the library's own reader (C02 adds an independent parser). Trusted: harness reference model (a Vec per track).",
     "exhaustive enumeration of operation histories (depth-bounded) on the real muxer+reader against a reference model","§3 C01")
 
-E3NOTE="Bounded: inputs within <=1 (quick) / <=2 (thorough, selected baselines) field substitutions of the baselines, values from a boundary menu; fields are the reads the parser itself performs. No byte-level havoc (that would be sampling). Trusted: harness streams/allocator, the watchdog (10 s wall per case)."
+E3NOTE="Bounded: inputs within <=1 (quick) / <=2 (thorough, selected baselines) field substitutions of the baselines, values from a boundary menu, plus two structurally defined multi-field sets on every baseline (overrun chains: all box sizes on every suffix of every ancestor path raised together; extreme pairs: every 64-bit number x every 32-bit field at the top of their range); fields are the reads the parser itself performs. No byte-level havoc (that would be sampling). Trusted: harness streams/allocator, the watchdog (10 s wall per case)."
 chk("C06","model_checking",
     "Each baseline (muxer outputs of every kind, canned files incl. fragment-mode, reference-encoded kitchen sinks K1-K6) and each member of the enumerated input-shape families (metadata item x data type x payload length, fragment run-length vectors x flag forms, chunk/size shapes) is opened and fully probed (every accessor, JSON/summary of every box, sample ids 0..count+1 and u32::MAX) under every single substitution of a boundary value into every field the parser reads (and all pairs on selected baselines in the thorough tier), in both an overflow-checked and a wrapping release build, in worker subprocesses so aborts and stack overflows are attributed; no panic/abort on any explored input.",
     E3NOTE,"exhaustive deviation-bounded exploration of inputs (k<=2 field substitutions, dynamic field discovery) on the real reader, two build profiles, process isolation","§3 C06")
@@ -36,7 +36,7 @@ chk("C10","fault_enumeration",
     "Bounded: one fault per execution; pairs of transparent deviations only on the files/histories marked for it; the explored files/histories are a fixed list. Trusted: scripted streams of the harness.",
     "exhaustive single-fault enumeration over stream-call indices + deviation-bounded (k<=2) short/interrupted transfer schedules on the real reader and muxer","§3 C10")
 chk("C11","fault_enumeration",
-    "Every cut position 0..len of every baseline layout (muxer layout, movie-header-first, fragmented in one stream and as separate segment, extra reference layouts) is opened with the prefix's own length in an isolated worker; open must return (no panic, no hang), and when it succeeds every sample 1..count+1 of every track is Err, None, or identical in bytes and timing to that sample of the complete file.",
+    "Every cut position 0..len of every baseline layout (muxer layout, movie-header-first, fragmented in one stream and as separate segment, extra reference layouts, and 56 variants of a movie-header-last file in each of which another box of the movie header is the very last box of the file) is opened with the prefix's own length in an isolated worker; open must return (no panic, no hang), and when it succeeds every sample 1..count+1 of every track is Err, None, or identical in bytes and timing to that sample of the complete file.",
     "Complete over cut positions for the listed files; the files are a fixed list. Ok(None)/Err both count as 'no data'.",
     "exhaustive enumeration of crash/cut points with a differential oracle against the complete file","§3 C11")
 
@@ -45,7 +45,7 @@ chk("C02","model_checking",
     "Bounded as C01. Trusted: refmp4::parse / refmp4::validate, hand-written from ISO/IEC 14496-12.",
     "exhaustive enumeration of operation histories (depth-bounded) on the real muxer, judged by an independent reference decoder","§3 C02")
 chk("C14","model_checking",
-    "Complete loops over each configuration field's domain (all 42x13x7 AAC triples x 4 bitrates, all 26^3 languages, every u16 width and height for the three video kinds, SPS profile/compat/level bytes one-hot or all 2^24, parameter-set lengths up to 65535, brand lists, timescale grid, track-type x media pairs, two-track pairs), each muxed with small histories and reopened; every accessor named in the statement must equal the configuration and durations must agree within one tick.",
+    "Complete loops over each configuration field's domain (all 42x13x7 AAC triples x 4 bitrates, all 26^3 languages, every u16 width and height for the three video kinds, all 2^24 SPS profile/compat/level triples, every 4-byte SPS/PPS prefix over {00,01,67,ff} and every first byte, parameter-set lengths up to 65535, brand lists, timescale grid, track-type x media pairs, two-track pairs), each muxed with small histories and reopened; every accessor named in the statement must equal the configuration and durations must agree within one tick.",
     "Fields are swept one or two at a time (not the full cross product of all fields). Trusted: Annex A profile table and the duration tolerance stated in the evidence.",
     "exhaustive enumeration of configuration domains x small operation histories on the real muxer+reader","§3 C14")
 chk("C15","model_checking",
@@ -58,33 +58,33 @@ chk("C17","model_checking",
     "exhaustive enumeration of call sequences (depth-bounded) over out-of-domain alphabets on the real muxer, two build profiles","§3 C17")
 
 chk("C03","model_checking",
-    "Every consistent table set up to the bound is reference-encoded from a logical movie by an encoder that shares no code with the library (all compositions of N samples into chunks x every run-length encoding of the chunk map x stco/co64 x every size vector over {0,1,2} and constant sizes; every delta/offset vector with every run splitting and both ctts versions; every sync subset; every interleaving of two tracks' chunks and every chunk order; the complete cross product for small N; all 5x5 codec pairs) and every id 0..N+2, u32::MAX is looked up through sample_offset and read_sample and compared with the statement's formula evaluated on the logical movie. In addition the canned (ffmpeg-produced) files are decoded by the independent parser, the lookup semantics are evaluated on those tables, and every sample is compared with the library's answer.",
+    "Every consistent table set up to the bound is reference-encoded from a logical movie by an encoder that shares no code with the library (all compositions of N samples into chunks x every run-length encoding of the chunk map x stco/co64 x every size vector over {0,1,2} and constant sizes; every delta/offset vector with every run splitting and both ctts versions; every sync subset; every interleaving of two tracks' chunks and every chunk order; the complete cross product for small N; all 5x5 codec pairs; the children of stbl in four other orders with uninterpreted boxes among them; sizes in {0x90000000,1,0xffffffff}^N whose running sums pass 2^32, offsets only) and every id 0..N+2, u32::MAX is looked up through sample_offset and read_sample and compared with the statement's formula evaluated on the logical movie. In addition the canned (ffmpeg-produced) files are decoded by the independent parser, the lookup semantics are evaluated on those tables, and every sample is compared with the library's answer.",
     "Bounded by N (7 quick / 9 thorough per family; cross product N<=3/4). 'Randomly for large N' of the quantifier is not covered. Trusted: refmp4 reference encoder (validated in the other direction by C02/C05 and by the canned files).",
     "exhaustive enumeration of input shapes (bounded N) against an independent reference model, on the real reader","§3 C03")
 chk("C09","model_checking",
-    "Logical fragmented movies are enumerated (1-3 fragments in quick, 1-4 in thorough; one or two tracks per fragment in both orders; run lengths 0..3; explicit base at the moof or at the data, also together with the default-base-is-moof flag / default-base-is-moof / neither; with and without trun data offset, data before or after the moof (negative offsets); fragment default duration, per-sample durations, composition offsets absent/v0/v1; tfdt v0/v1 with base times 0, 5, 2^32+5; movie-level defaults; 32/64-bit moof headers), reference-encoded, opened both as one stream and as initialization segment + separately opened media segment, and every id is compared with the statement's formula.",
-    "Bounded as listed in the evidence (families 1-3). One trun per traf. A known finding (single trex) is listed in known_findings.json by predicate.",
+    "Logical fragmented movies are enumerated (1-3 fragments in quick, 1-4 in thorough; one or two tracks per fragment in both orders; run lengths 0..3 or a track fragment without any run; sizes in {0x90000000,1,0xffffffff}^N whose sums pass 2^32 (offsets only); explicit base at the moof or at the data, also together with the default-base-is-moof flag / default-base-is-moof / neither; with and without trun data offset, data before or after the moof (negative offsets); fragment default duration, per-sample durations, composition offsets absent/v0/v1; tfdt v0/v1 with base times 0, 5, 2^32+5; movie-level defaults; 32/64-bit moof headers), reference-encoded, opened both as one stream and as initialization segment + separately opened media segment, and every id is compared with the statement's formula.",
+    "Bounded as listed in the evidence (families 1-3). At most one trun per traf. A known finding (single trex) is listed in known_findings.json by predicate.",
     "exhaustive enumeration of input shapes (bounded) against an independent reference model, on the real reader, two delivery modes","§3 C09")
 
 chk("C12","model_checking",
-    "Reference box trees of representative progressive movies (AVC+AAC with every optional table, edit lists and iTunes metadata; HEVC+TTXT with a QuickTime-form meta and constant sample size; VP9 with mdat first; VP9+AAC in the QuickTime audio form with esds inside wave, a moov-level meta and a binary year) and fragmented movies (one and two tracks, mixed base/offset forms) are transformed at every applicable position (insert free/unknown boxes with 32- and 64-bit headers at every child index of the top level and of every iterating container; permute order-free siblings; swap mdat/moov; 64-bit header on each single box and on all; 1 and 8 spare bytes after every fixed-layout/table box), re-serialised with dependent offsets recomputed, and compared with the untransformed movie: per-sample results, offsets shifted by exactly the layout change, track accessors, metadata. Every single transformation and every pair of transformations, in both tiers.",
+    "Reference box trees of representative progressive movies (AVC+AAC with every optional table, edit lists and iTunes metadata; HEVC+TTXT with a QuickTime-form meta and constant sample size; VP9 with mdat first; VP9+AAC in the QuickTime audio form with esds inside wave, a moov-level meta and a binary year) and fragmented movies (one and two tracks, mixed base/offset forms) are transformed at every applicable position (insert free/unknown boxes with 32- and 64-bit headers at every child index of the top level and of every iterating container; permute order-free siblings (swaps, reversal, every child moved to the front and to the end); swap mdat/moov; 64-bit header on each single box and on all; 1, 8, 12, 16 and 24 spare bytes after every fixed-layout/table box), re-serialised with dependent offsets recomputed, and compared with the untransformed movie: per-sample results, offsets shifted by exactly the layout change, track accessors, metadata. Every single transformation and every pair of transformations, in both tiers.",
     "Logical movies are a fixed representative set (not the whole C03/C09 generator space). hev1/vp09/stsd/edts do not iterate over children and are out of scope of insertion.",
     "exhaustive enumeration of layout transformations (k<=2) of reference-encoded inputs, differential against the untransformed parse, on the real reader","§3 C12")
 chk("C18","model_checking",
-    "All 16 subsets of the four items x per-item payload alphabets (text lengths 0..70000 with multi-byte UTF-8, year as decimal text or 4-byte binary incl. 0 and 2^32-1, poster lengths 0..70000) x item orders x unrelated items (text, unknown data type, no data box) at every position x handler mdir/mdta/zero x FullBox/QuickTime meta x placement (udta/meta, no udta, udta without meta, meta directly in moov) are reference-encoded and the four accessors compared with the encoded values / absence.",
+    "All 16 subsets of the four items x per-item payload alphabets (text lengths 0..70000 with multi-byte UTF-8 and six edge texts with NUL/blank/newline/BOM at either end, year as decimal text or 4-byte binary incl. 0 and 2^32-1, poster lengths 0..70000) x item orders x unrelated items (text, unknown data type, no data box) at every position x handler mdir/mdta/zero x FullBox/QuickTime meta x placement (udta/meta, no udta, udta without meta, meta directly in moov) x delivery (plain file, fragmented in one stream, reader derived by read_fragment_header from the init segment's reader) are reference-encoded and the four accessors compared with the encoded values / absence.",
     "Bounded by the listed alphabets; only the encodings the statement names (text type 1, binary year, JPEG type 13).",
     "exhaustive enumeration of input shapes against an independent reference encoder, on the real reader","§3 C18")
 
 chk("C04","model_checking",
-    "For all 48 box codecs (plus the esds descriptors) the shape space is enumerated (version 0/1, every subset of the flag bits that gate fields - tfhd 2^5, trun 2^6 -, every presence combination of optional children, list lengths 0..2/3 and the 5-bit/8-bit count limits of avcC) and crossed with value assignments: all-zero, all-ones at wire width, a fingerprint with distinct non-palindromic bytes per field, and one one-hot assignment per field. Each value is encoded (count returned = box_size() = bytes written = header size field; header code = the box's own), decoded with 0, 1 and 9 trailing sibling bytes (equal value, stream exactly at the box end), and the reference encoding (32- and 64-bit header) is pushed through decode -> encode -> decode (fixpoint); the same fixpoint clause is applied to every box of the canned real files for which the library has a codec.",
+    "For all 48 box codecs (plus the esds descriptors) the shape space is enumerated (version 0/1, every subset of the flag bits that gate fields - tfhd 2^5, trun 2^6 -, every presence combination of optional children, list lengths 0..2/3 and the 5-bit/8-bit count limits of avcC) and crossed with value assignments: all-zero, all-ones at wire width, a fingerprint with distinct non-palindromic bytes per field, one one-hot assignment per field (two-hot pairs in thorough), strings that look length-prefixed. Each value is encoded (count returned = box_size() = bytes written = header size field; header code = the box's own), decoded with 0, 1 and 9 trailing sibling bytes (equal value, stream exactly at the box end), and the reference encoding (32- and 64-bit header) is pushed through decode -> encode -> decode (fixpoint); the same fixpoint clause is applied to every box of the canned real files for which the library has a codec.",
     "Bounded by list lengths and the value alphabet (not arbitrary field values). 'Representable' is made explicit per box in the generator. Boxes over 4 GiB are only covered at header level (C05).",
     "exhaustive enumeration of box shapes x value assignments on the real codecs (round-trip and fixpoint oracles)","§3 C04")
 chk("C05","model_checking",
-    "Same shape x value space as C04; the library's bytes must equal the bytes of an independent reference encoder written from the standards (reserved positions masked, noted), the reference bytes must decode to the same field values, also with a 64-bit size header and with esds descriptor lengths padded to 2-4 bytes; every value of the first two AudioSpecificConfig bytes (x a third/fifth/sixth byte alphabet) is decoded by the library and compared with a reference bit reader; box header size forms are checked around 2^32.",
+    "Same shape x value space as C04; the library's bytes must equal the bytes of an independent reference encoder written from the standards (reserved positions masked, noted), the reference bytes must decode to the same field values, also with a 64-bit size header on the box itself and on each of its descendants in turn (followed by another box), and with esds descriptor lengths padded to 2-4 bytes; every value of the first two AudioSpecificConfig bytes (x a third/fifth/sixth byte alphabet) is decoded by the library and compared with a reference bit reader; box header size forms are checked around 2^32.",
     "Trusted: the hand-written reference encoder (REFSPEC.md). Child order inside containers follows the library's (order carries no meaning). One known finding (escaped object type + explicit frequency, pinned by the repository's own test) is listed by predicate.",
     "exhaustive enumeration of box shapes x value assignments against an independent reference encoder/decoder; complete sweeps of packed bytes","§3 C05")
 chk("C13","model_checking",
-    "Boundary-value histories that land the media-data size, the first/last chunk offset (by 4.3 GB of volume through a sparse stream, and by a non-zero stream origin) and the summed durations (media, and movie timescale with ratios 1, 2, 1/2) at 2^32-2 .. 2^32+2, plus an origin sweep that puts the 2^32 boundary at every byte of the region written by the final flushes of two tracks with pending chunks, are muxed by the real writer, validated by the independent parser (C02 oracle incl. 64-bit forms where a value needs them) and read back sample by sample through the real reader.",
+    "Boundary-value histories that land the media-data size, the first/last chunk offset (by 4.3 GB of volume through a sparse stream, and by a non-zero stream origin) and the summed durations (media, and movie timescale with ratios 1, 2, 1/2) at 2^32-2 .. 2^32+2, every assignment of {short, 2^32-1, above 2^32} movie ticks to two and three tracks, plus an origin sweep that puts the 2^32 boundary at every byte of the region written by the final flushes of two tracks with pending chunks, are muxed by the real writer, validated by the independent parser (C02 oracle incl. 64-bit forms where a value needs them) and read back sample by sample through the real reader.",
     "Volume cases use constant-valued large samples; AVC only in quick, all five kinds in thorough. Boxes other than mdat above 4 GiB are unreachable through the muxer.",
     "boundary-value enumeration of muxing histories over a sparse >4 GiB stream on the real muxer+reader, judged by reference model and independent validator","§3 C13")
 
